@@ -296,6 +296,43 @@ def time_limit(seconds):
         signal.setitimer(signal.ITIMER_REAL, 0)
         signal.signal(signal.SIGALRM, old)
 
+
+# ------------------------------------------------------------------------------------------------ temp dirs
+
+def recycle_temp_dirs():
+    """Make `tempfile.mkdtemp` (and with it `TemporaryDirectory`) hand out a small set of RECYCLED directory names
+    instead of fresh random ones: the files the harness writes for consecutive cases then have the SAME paths with
+    different contents, as in a user's step-wise workflow that rewrites `start.gro` or `system.top`.  Code under
+    test that remembers something per path (a cache keyed by file name, an include-once guard, a registry of
+    written files) is exposed by the later cases of every stream; on correct code a path carries no memory and
+    nothing changes.  A name is only handed out while no directory of that name exists, so nested or simultaneous
+    temporary directories never collide (fallback: the real mkdtemp)."""
+    import atexit
+    import shutil
+    import tempfile
+    if getattr(tempfile, "_polyply_verif_recycling", False) or os.environ.get("VERIF_NO_RECYCLE"):
+        return
+    real = tempfile.mkdtemp
+    base = os.path.join(tempfile.gettempdir(), "polyply_verif_work_%d" % os.getpid())
+
+    def mkdtemp(suffix=None, prefix=None, dir=None):   # pylint: disable=redefined-builtin
+        root = base if dir is None else dir
+        try:
+            os.makedirs(root, exist_ok=True)
+            for k in range(4):
+                path = os.path.join(root, "%sr%d%s" % (prefix or "tmp", k, suffix or ""))
+                try:
+                    os.mkdir(path, 0o700)
+                    return path
+                except FileExistsError:
+                    continue
+        except OSError:
+            pass
+        return real(suffix, prefix, dir)
+    tempfile.mkdtemp = mkdtemp
+    tempfile._polyply_verif_recycling = True
+    atexit.register(lambda: shutil.rmtree(base, ignore_errors=True))
+
 # ------------------------------------------------------------------------------------------------ findings
 
 def load_known_findings():
@@ -490,6 +527,7 @@ def run_check(pid, tier, seed, module, replay=None):
         gen_tables.FALLBACK_DIR = os.path.join(LEAN_SRC, "PolyplyVerif", "Generated")
     ctx = Ctx(pid, tier, seed)
     quiet_logs()
+    recycle_temp_dirs()
     try:
         sys.path.insert(0, os.path.join(VERIF, "tools"))
         import fingerprint
